@@ -39,6 +39,7 @@ CHECKS = {
              "instrument": [job("$REPO/gsfa", MOD + "/gsfa", ["gsfa-write.go"], rules=GSFA_SHRINK)] + GSFA_PERF},
             {"name": "real", "run": "^TestVerif_C06_Real$", "instrument": [], "shards": {"quick": 2, "thorough": 4}},
             {"name": "reclen", "run": "^TestVerif_C06_RecLen$", "instrument": [], "shards": {"quick": 1, "thorough": 1}},
+            {"name": "real-race", "run": "^TestVerif_C06_Real$", "race": True, "tiers": ["thorough"], "instrument": [], "shards": {"quick": 1, "thorough": 2}},
         ],
         "quick": {"shards": 16, "budget_s": 60},
         "thorough": {"shards": 16, "budget_s": 900},
@@ -52,6 +53,8 @@ CHECKS = {
             {"name": "handlers", "run": "^TestVerif_C09_Handlers$",
              "harness": ["main/kit_test.go", "main/epochkit_test.go", "main/c18_test.go", "main/c09_test.go", "main/c09_handlers_test.go"],
              "instrument": [job("$REPO", MOD, ["multiepoch.go", "first-success.go"], imports={"golang.org/x/sync/errgroup": MOD + "/zzverif/verrgroup"}), ERRGROUP] + EPOCH_PERF},
+            {"name": "race", "run": "^TestVerif_C09_Race$", "race": True, "tiers": ["thorough"], "shards": {"thorough": 1, "quick": 1},
+             "harness": ["main/kit_test.go", "main/race_test.go"], "instrument": []},
         ],
         "quick": {"shards": 16, "budget_s": 90},
         "thorough": {"shards": 16, "budget_s": 900},
@@ -59,9 +62,11 @@ CHECKS = {
     "C18": {
         "pkg": ".", "harness": ["main/kit_test.go", "main/c18_test.go"], "run": "^TestVerif_C18$",
         "level": "model_checking",
-        "instrument": [
-            job("$REPO", MOD, ["first-success.go"], imports={"golang.org/x/sync/errgroup": MOD + "/zzverif/verrgroup"}),
-            ERRGROUP,
+        "variants": [
+            {"name": "main", "run": "^TestVerif_C18$", "instrument": [
+                job("$REPO", MOD, ["first-success.go"], imports={"golang.org/x/sync/errgroup": MOD + "/zzverif/verrgroup"}), ERRGROUP]},
+            {"name": "race", "run": "^TestVerif_C18_Race$", "race": True, "tiers": ["thorough"], "shards": {"thorough": 1, "quick": 1},
+             "harness": ["main/kit_test.go", "main/race_test.go"], "instrument": []},
         ],
         "quick": {"shards": 16, "budget_s": 90},
         "thorough": {"shards": 16, "budget_s": 900},
